@@ -317,7 +317,15 @@ func (s *storage) GetWriter(key Key, revalidate bool, closeNotifier *chan KeyInf
 		panic(fmt.Sprintf("Storage failed to assess path %v: %v", fp, err))
 	}
 	if exists && !revalidate {
-		return nil
+		// The caller holds the key's lock, so no fill is in progress: a file without metadata is what an
+		// interrupted fill (a crash, a kill) left behind. Clear it away; anything else is an entry.
+		if !isUnpublished(fp) {
+			return nil
+		}
+		if err := os.Remove(fp); err != nil && !os.IsNotExist(err) {
+			s.logger.Errorf("Could not remove unpublished file %v: %v", fp, err)
+			return nil
+		}
 	}
 
 	return &storageWriter{key: key,
@@ -344,6 +352,15 @@ const (
 	metadataXAttrName = "user.rrrouter"
 )
 
+// isUnpublished tells a file that carries no metadata attribute at all: a fill that has not been published (yet).
+func isUnpublished(path string) bool {
+	_, err := xattr.Get(path, metadataXAttrName)
+	if xe, ok := err.(*xattr.Error); ok {
+		return xe.Err == xattr.ENOATTR
+	}
+	return false
+}
+
 func (s *storage) Get(ctx context.Context, keys []Key) (*os.File, StorageMetadata, Key, error) {
 	defer mets.FromContext(ctx).MarkTime(time.Now())
 	if len(keys) == 0 {
@@ -363,6 +380,13 @@ func (s *storage) Get(ctx context.Context, keys []Key) (*os.File, StorageMetadat
 
 		sm, err := getStorageMetadata(ctx, f, metadataXAttrName)
 		if err != nil {
+			if xe, ok := err.(*xattr.Error); ok && xe.Err == xattr.ENOATTR {
+				// No metadata yet: a request that holds the key's lock is still filling this file. Removing it
+				// would cut that request's response and start a second fetch; whoever takes the lock next
+				// clears away what an interrupted fill left behind (GetWriter).
+				f.Close()
+				continue
+			}
 			s.logger.Errorf("Failed to get metadata from %v: %v\n", fp, err)
 			err = os.Remove(fp)
 			if err != nil {
